@@ -253,6 +253,8 @@ def gen_case(rng, thorough: bool) -> dict:
     r = rng.random()
     if r < 0.2:
         labels = rng.sample(range(100), nrows)
+    elif r < 0.26 and nrows >= 2:
+        labels[rng.randrange(1, nrows)] = labels[0]  # duplicate index label (known finding for dict containers)
     first = 0 if rng.random() < 0.85 else 1
     tps = [first]
     for _ in range(rng.randint(1, 4)):
